@@ -383,7 +383,7 @@ pub fn build() -> Property {
             Phase {
                 name: "inproc_scanner",
                 kind: PhaseKind::Gen {
-                    cases: (20000, 300000),
+                    cases: (100000, 1000000),
                     tape_len: 6000,
                     f: Box::new(inproc_case),
                 },
@@ -392,7 +392,7 @@ pub fn build() -> Property {
             Phase {
                 name: "cli_view_rdh",
                 kind: PhaseKind::Gen {
-                    cases: (1200, 12000),
+                    cases: (6000, 40000),
                     tape_len: 6000,
                     f: Box::new(cli_case),
                 },
@@ -401,7 +401,7 @@ pub fn build() -> Property {
             Phase {
                 name: "cli_payload_view",
                 kind: PhaseKind::Gen {
-                    cases: (600, 6000),
+                    cases: (3000, 20000),
                     tape_len: 12000,
                     f: Box::new(cli_payload_case),
                 },
